@@ -57,6 +57,16 @@ def codec(
     #   may name different types for different callers: resolve before memoizing.
     if isinstance(t, str):
         t = refs.evaluate(refs.forwardref(t))
+    # Equal references (same text, same module) may name different classes over time
+    #   - a class defined again under its old name: memoize by what the reference
+    #   names now, where that can be told.
+    elif isinstance(t, refs.ForwardRef):
+        try:
+            t = refs.evaluate(t)
+        except RecursionError:
+            raise
+        except Exception:  # noqa: BLE001, S110 - unresolvable (yet): memoize the reference.
+            pass
     return _codec(
         t,
         marshaller=marshaller,
